@@ -29,7 +29,7 @@ SPEC = {
     "coq_dirs": ["C05", "C02", "C03", "Lib", "gen"],   # forbidden-vernacular scan covers the imported developments too
     "properties_v": "C05/Properties.v",
     "obligations": [
-        "C05_honest_safe_refuted", "C05_honest_safe_outside_now", "C05_single_hash_evidence_inert", "C05_voter_one_vote_per_kind", "C05_voter_safe_outside_now", "C05_voter_safe_outside", "C05_voter_record_kept", "C05_nonvacuous_voter",
+        "C05_honest_safe_refuted", "C05_honest_safe_outside_now", "C05_single_hash_evidence_inert", "C05_voter_one_vote_per_kind", "C05_voter_safe_outside_now", "C05_voter_safe_outside", "C05_voter_record_kept", "C05_voter_lives_pass_the_check", "C05_nonvacuous_voter",
         "C05_honest_safe_outside", "C05_honest_record_kept", "C05_duplicate_class",
         "C05_real_equivocation_punished", "C05_once", "C05_once_token_bound", "C05_one_height",
         "C05_bound", "C05_shares", "C05_penalize_effects", "C05_builder_validator", "C05_builder_validator_outside", "C05_builder_validator_refuted_before_repair",
@@ -47,6 +47,7 @@ SPEC = {
         "hand-written model coq/C05/Model.v of processDoubleSignV5 / processEvidences / slashing / replaySlashing / doPenalize / takePenalty / LookBackVldReaderForRound",
         "BLS verification is a function parameter of the model; theorems about honest validators assume ideal signatures (a signature valid under an honest key was produced by its owner on exactly that hash||round||index)",
         "correspondence harness harness/cmd/c05 (Go, real BLS keys and signatures, real StateDB / header store / BlockChain look-back via add-only hooks) + in-Coq evaluation of the model on the same cases; the harness' own validator-set ordering, look-back arithmetic and signature-validity table",
+        "life runs: a real Voter on a real VoteDB (one store kept across restarts, kill points inside the vote-record write) driven through step / re-entry / restart histories; every vote sent is checked in Coq against the C03/C02 bound (votes_ok) and every same-kind pair is fed to the real builder and validator evidence paths",
         "consensus side (oracle only, no Coq model): real Voter objects with stub sortition/priority callbacks; completion of the asynchronous event mux is detected through the voter's own 'SelfVote.' / 'DoubleVote.' log records",
         "translator 'c05 params' (StakeUint, CommissionRateBase, 2*ACoCHTFrequency, PenaltyFractionForDoubleSign of all nets -> coq/gen/C05Params.v)",
         "the harness' measurement of which of the two repairs (0c3d6f7, e1d256e) the working tree contains (passed to the model as fx with every case and written to coq/gen/C05Params.v, where Bridge.v requires it to be fx_now)",
